@@ -203,7 +203,10 @@ Definition dec_hlabel (l : list Z) : hlabel :=
   if Z.eqb k 0 then HGet (zn (nthz l 1))
   else if Z.eqb k 1 then HInteract (zn (nthz l 1)) (zn (nthz l 2))
   else if Z.eqb k 2 then HReturn (zn (nthz l 1))
-  else if Z.eqb k 3 then HScript (zn (nthz l 1)) (Z.odd (nthz l 2)) (Z.odd (Z.div2 (nthz l 2)))
+  (* flags: 1 = reported as broken (r2d2 has_broken / a dangling diesel transaction), 2 = fails its validity
+     check, 4 = diesel's transaction manager in its error state - broken as well *)
+  else if Z.eqb k 3 then HScript (zn (nthz l 1)) (Z.odd (nthz l 2) || Z.odd (Z.div2 (Z.div2 (nthz l 2))))
+                                 (Z.odd (Z.div2 (nthz l 2)))
   else HTry.
 
 Definition run_pool_z (x : list Z * list (list Z)) : list Z :=
